@@ -2,7 +2,7 @@
 from corr import kern_family
 from oracles import c12 as oracle
 
-GEN = ["Const"]
+GEN = ["Const", "Tol"]
 LEAN_TARGETS = ["MagpyVerif.Props.C12"]
 PROPS = ["MagpyVerif.Props.C12"]
 
@@ -16,6 +16,9 @@ def run(ctx, model_ok):
         ctx.cov["traces_validated_against_impl"] = st["rows"]
         ctx.cov["samples"] = st.pop("samples")
         ctx.cov["correspondence"] = st
+    if ctx.driver_ok:
+        from corr import trimesh_family as _tf
+        ctx.cov["correspondence_trimesh_inside"] = _tf.run_inside_stream(ctx, ctx.scale(150, 5000))
     budget = 10 if len(ctx.broken) else 1
     fails, ost = oracle.sweep(ctx, ctx.scale(60, 3000) * budget)
     ctx.failing += fails
@@ -23,8 +26,10 @@ def run(ctx, model_ok):
     ctx.cov.setdefault("evaluations", ost["c12_cases"])
     ctx.cov.setdefault("distinct_nontrivial", ost["c12_cases"])
     ctx.cov.setdefault("samples", [ost])
-    ctx.cov["not_shown"] = ["homogeneity of the Cylinder and CylinderSegment kernels (not ported to the real carrier) and of the TriangularMesh inside test: "
-                            "rescaling oracle 1e-9..1e9 only (proved: Dipole, Sphere, segment, Cuboid, Triangle, Tetrahedron, Circle with cel as an opaque function)",
+    ctx.cov["not_shown"] = ["homogeneity of the CylinderSegment kernel (not ported to the real carrier): rescaling oracle 1e-9..1e9 only (proved: Dipole, Sphere, segment, Cuboid, "
+                            "Triangle, Tetrahedron, Circle, the whole ported BHJM_magnet_cylinder with cel / cel0 as opaque functions, and the TriangularMesh inside test / "
+                            "bounding-box pre-filter / is_facet_inwards, tied by the trimesh-inside stream)",
+                            "Cylinder: only the single-row path of `cel` (cel0) is modelled; scipy ellipk/ellipe modelled through cel0 (validated by the kern stream)",
                             "float loss of absolute offsets at extreme scales is outside exact real arithmetic"]
 
 
